@@ -44,6 +44,10 @@ func _evalStmts(
 
 		if _defer, ok := val.(*object.DeferObj); ok {
 			deferObjs = append(deferObjs, *_defer)
+			// NOTE: a defer statement itself is evaluated as nil
+			// (the internal DeferObj must not leak out as the value of the body)
+			val = object.BuiltInNil
+			continue
 		}
 
 		if val.Type() == object.YieldType {
